@@ -20,6 +20,12 @@ import (
 // returns the per-transaction digests of everything observable: code, codespace, response
 // bytes, event bytes, app hash; and finally the raw dump hash of all stores. Logs excluded.
 func runTranscript(seed int64, hid, nTx int, yield func()) (digests []string, viol []Violation, inc []string) {
+	return runTranscriptR(seed, hid, nTx, yield, 0)
+}
+
+// runTranscriptR: restartEvery > 0 additionally re-opens the node on the same database every so many
+// transactions; a restart must be unobservable, so the transcript has to be identical.
+func runTranscriptR(seed int64, hid, nTx int, yield func(), restartEvery int) (digests []string, viol []Violation, inc []string) {
 	rc := &RunCtx{ID: "C18", Tier: "quick", Seed: seed, Cov: NewCov()}
 	rc.Rand = newRand(seed*7919 + int64(hid)*104729 + 5)
 	gs := GenGenesis(rc.Rand, GenOpts{Unpaused: hid%2 == 0, WellFormed: true})
@@ -50,7 +56,7 @@ func runTranscript(seed int64, hid, nTx int, yield func()) (digests []string, vi
 		}
 		h.Write(e.C.AppHash)
 		digests = append(digests, hex.EncodeToString(h.Sum(nil))[:10])
-		if i == nTx/2 {
+		if i == nTx/2 || (restartEvery > 0 && i%restartEvery == restartEvery-1) {
 			e.Restart()
 		}
 	}
@@ -96,6 +102,12 @@ func runC18(rc *RunCtx) {
 		hb := (hid + k) % H
 		d, v, inc := runTranscript(rc.Seed, hb, nTx, nil)
 		rec(hb, "after-unrelated-histories", d, v, inc)
+	}
+	// (b') with a node restart every few transactions (memory retained outside the store would show)
+	for k, every := range []int{3, 11} {
+		hb := (hid + 2*k) % H
+		d, v, inc := runTranscriptR(rc.Seed, hb, nTx, nil, every)
+		rec(hb, fmt.Sprintf("restart-every-%d", every), d, v, inc)
 	}
 	// (c) concurrently with other instances on other goroutines
 	var wg sync.WaitGroup
@@ -269,7 +281,7 @@ func init() {
 			if v, _ := c.Extra["race_log_parsed"].(bool); !v {
 				miss = append(miss, "race pass did not run")
 			}
-			for _, m := range []string{"fresh-process", "after-unrelated-histories", "concurrent", "race:concurrent-instances", "race:parallel-queries"} {
+			for _, m := range []string{"fresh-process", "after-unrelated-histories", "restart-every-3", "restart-every-11", "concurrent", "race:concurrent-instances", "race:parallel-queries"} {
 				if c.Matrix["C18_modes"][m] == 0 {
 					miss = append(miss, "mode not exercised: "+m)
 				}
